@@ -22,7 +22,8 @@ SECT_I = ["Ntoks", "Ntext", "Nmap", "Ltoks", "Ltext", "Lmap", "warn", "Ncols", "
 M_NTOK, M_NTEXT, M_NMAP, M_LTOK, M_LTEXT, M_LMAP, M_WARN, M_FUEL, M_WF, M_KNOWN, M_CMN, M_CML, M_CIN, M_CIL, \
     M_EWARN, M_PATHS, M_EXPN, M_EXPL, M_NUMS = range(19)
 
-KNOWN_IDS = {13: "D13", 14: "D14", 15: "D15", 17: "D17", 23: "D23", 24: "D24", 25: "D25", 26: "D26", 27: "D27", 28: "D28"}
+# D13 D14 D17 D22 D23 were repaired in /repo (fix: commits): they are no classes any more
+KNOWN_IDS = {15: "D15", 24: "D24", 25: "D25", 26: "D26", 27: "D27", 28: "D28"}
 
 RUNS = os.path.join(CACHE, "css_runs")
 
@@ -426,9 +427,6 @@ def c19_case(c, agg):
                 elif (sl, sc) in import_starts and (D in ("C", "cc") or dk in ("at", "c")):
                     ok = True   # @media wrapper / placeholder point at the start of the import
             if ok:
-                continue
-            if sk == "c":
-                known.append("D22")
                 continue
             bad.append("entry (out col %d -> src %d:%d%s): source token %s does not correspond to output token %s" % (
                 dc, sl, sc, " name=%r" % name if name is not None else "", S, D))
